@@ -301,7 +301,7 @@ def run_core(cfg, monitors=("dev", "link", "mem", "ref", "rsp"), plans=None, swe
             for pi, port in enumerate(top.ports):
                 v, r = (yield port.cmd.valid), (yield port.cmd.ready)
                 if v and (not prev[pi]["valid"] or prev[pi]["acc"]):
-                    events.append((c, 0, pi, dict(c="OFFER", p=pi, t=c * nph)))
+                    events.append((c, 0, pi, dict(c="OFFER", p=pi, a=(yield port.cmd.addr), t=c * nph)))
                 if v and r:
                     we, a = (yield port.cmd.we), (yield port.cmd.addr)
                     events.append((c, 1, pi, dict(c="CMD", p=pi, we=bool(we), a=a, t=c * nph)))
